@@ -1,10 +1,10 @@
 package props
 
 import (
-	"go/types"
 	"fmt"
 	"go/constant"
 	"go/token"
+	"go/types"
 	"sort"
 	"strings"
 
@@ -26,6 +26,7 @@ func checkC03(c *Ctx) {
 	c.autoPacketIDNonZero()
 	c.decodeLoopConservation()
 	c.decodeBufferExact()
+	c.decodeWithinPacket()
 	c.dirtyDiscipline()
 	c.lengthAndWriterAgree()
 	c.lenOrdering()
